@@ -241,7 +241,7 @@ def preset_extra_cases():
     here = os.path.dirname(os.path.abspath(__file__))
     results = {}
     for order in itertools.permutations(["hosts", "apache", "apps"]):
-        p = subprocess.run([sys.executable, "-W", "ignore", os.path.join(here, "c17_import_order.py"), "/repo", *order], capture_output=True, text=True, timeout=120)
+        p = subprocess.run([sys.executable, "-W", "ignore", os.path.join(here, "c17_import_order.py"), os.environ.get("PASSLIB_REPO", "/repo"), *order], capture_output=True, text=True, timeout=120)
         try:
             results[order] = json.loads(p.stdout)
         except Exception:  # noqa: BLE001
